@@ -85,12 +85,35 @@ func genScenario(r *hutil.Rng, stream string) Scenario {
 	}
 	used := map[int64]bool{}
 	var autos []int
+	// connection chains: last op that ran on each pool connection; a chain is closed for reuse
+	// once a stranger phase two may have dropped its session
+	var chainLast []int
+	chainOf := map[int]int{}
+	dead := map[int]bool{}
 	for i := 0; i < na; i++ {
 		if r.Chance(1, 6) {
+			chainOf[len(sc.Ops)] = len(chainLast)
+			chainLast = append(chainLast, len(sc.Ops))
 			sc.Ops = append(sc.Ops, Op{K: "local"})
 		}
+		op := Op{K: "auto", G: r.Intn(nx), Slow: r.Chance(1, 9)}
+		var live []int
+		for c := range chainLast {
+			if !dead[c] {
+				live = append(live, c)
+			}
+		}
+		if len(live) > 0 && r.Chance(1, 3) {
+			c := live[r.Intn(len(live))]
+			op.Reuse, op.Target = true, chainLast[c]
+			chainOf[len(sc.Ops)] = c
+			chainLast[c] = len(sc.Ops)
+		} else {
+			chainOf[len(sc.Ops)] = len(chainLast)
+			chainLast = append(chainLast, len(sc.Ops))
+		}
 		autos = append(autos, len(sc.Ops))
-		sc.Ops = append(sc.Ops, Op{K: "auto", G: r.Intn(nx)})
+		sc.Ops = append(sc.Ops, op)
 		sc.Branches = append(sc.Branches, genBranch(r, hostile, used))
 		m := 0
 		if r.Chance(1, 10) {
@@ -100,7 +123,11 @@ func genScenario(r *hutil.Rng, stream string) Scenario {
 		// phase two may arrive while later branches are still being created
 		if r.Chance(1, 4) {
 			t := autos[r.Intn(len(autos))]
-			sc.Ops = append(sc.Ops, Op{K: "p2", Target: t, Commit: r.Chance(1, 2), Stranger: r.Chance(1, 3)})
+			p := Op{K: "p2", Target: t, Commit: r.Chance(1, 2), Stranger: r.Chance(1, 3)}
+			if p.Stranger {
+				dead[chainOf[t]] = true
+			}
+			sc.Ops = append(sc.Ops, p)
 		}
 	}
 	for _, t := range autos {
@@ -160,6 +187,49 @@ func enumScenarios() []Scenario {
 					out = append(out, s)
 				}
 			}
+		}
+	}
+	return out
+}
+
+// connection reuse through the pool after every kind of failed first branch, a second
+// failing branch, phase two for the failed-START branch while its connection serves another
+// branch, and the branch-timeout path: enumerated, independent of the seed
+func enumReuse() []Scenario {
+	var out []Scenario
+	x := []string{"10.0.0.7:8091:2612345678901234567", "10.0.0.9:8091:77"}
+	type first struct {
+		f      []Fault
+		refuse int
+		slow   bool
+	}
+	firsts := []first{{f: []Fault{{"STMT", 0}}}, {f: []Fault{{"END", 0}}}, {f: []Fault{{"PREPARE", 0}}},
+		{f: []Fault{{"START", 0}}}, {refuse: 1}, {slow: true}, {f: []Fault{{"STMT", 0}, {"END", 0}}},
+		{f: []Fault{{"STMT", 0}, {"ROLLBACK", 0}}}}
+	seconds := [][]Fault{nil, {{"STMT", 1}}, {{"PREPARE", 0}}, {{"START", 1}}}
+	for _, ver := range []string{"5.7.30", "8.0.30"} {
+		for _, a := range firsts {
+			for _, b := range seconds {
+				for _, tail := range [][]Op{
+					{{K: "p2", Target: 0, Commit: false}, {K: "p2", Target: 1, Commit: true}},
+					{{K: "p2", Target: 1, Commit: false}, {K: "p2", Target: 0, Commit: false}}} {
+					s := Scenario{Version: ver, Xids: x, Branches: []int64{2612345678901234568, 2612345678901234569, 2612345678901234570},
+						Refuse: []int{a.refuse, 0, 0}, Stream: "clean"}
+					s.Faults = append(append([]Fault{}, a.f...), b...)
+					s.Ops = append([]Op{{K: "auto", G: 0, Slow: a.slow}, {K: "auto", G: 1, Reuse: true, Target: 0}}, tail...)
+					out = append(out, s)
+				}
+			}
+		}
+		// three branches in a row on one connection, the last two failing
+		out = append(out, Scenario{Version: ver, Xids: x, Branches: []int64{71, 72, 73}, Refuse: []int{0, 0, 0}, Stream: "clean",
+			Faults: []Fault{{"PREPARE", 0}, {"STMT", 1}, {"STMT", 2}},
+			Ops: []Op{{K: "auto", G: 0}, {K: "auto", G: 1, Reuse: true, Target: 0}, {K: "auto", G: 0, Reuse: true, Target: 1},
+				{K: "p2", Target: 2, Commit: false}}})
+		// timeout alone, with both phase-two kinds
+		for _, c := range []bool{true, false} {
+			out = append(out, Scenario{Version: ver, Xids: x, Branches: []int64{81}, Refuse: []int{0}, Stream: "clean",
+				Ops: []Op{{K: "auto", G: 0, Slow: true}, {K: "p2", Target: 0, Commit: c}}})
 		}
 	}
 	return out
@@ -270,6 +340,7 @@ func Run(args map[string]string) {
 	} else {
 		r := hutil.NewRng(seed)
 		scs = append(scs, enumScenarios()...)
+		scs = append(scs, enumReuse()...)
 		rc := r.Fork(1)
 		for i := 0; i < n; i++ {
 			scs = append(scs, genScenario(rc, "clean"))
